@@ -179,9 +179,14 @@ def run(ck):
             if not b or "trace" not in b:
                 continue
             L = len(b["trace"])
-            ks = list(range(L)) if thorough else sorted(rng.sample(range(L), min(L, 12)))
-            for name in (names if thorough else QUICK_SET[:2]):
-                if j["meta"]["path"] not in MOUNTS[name][2]:
+            # quick: a sample of the boundaries, and always the ones right before a link is read (between the check of a
+            # component and the use of its body)
+            ks = list(range(L)) if thorough else sorted(set(rng.sample(range(L), min(L, 12))) |
+                                                      {i for i, e in enumerate(b["trace"]) if e["c"] in ("readlinkat", "readlink")})
+            for name in (names if thorough else QUICK_SET[:2] + ["self<-symlink to another pid"]):
+                # a lookup from the "self" base walks through the /proc/self symlink first: a mount on that link races it too
+                crossed = MOUNTS[name][2] + (["status", "stat"] if name.startswith("self<-") else [])
+                if j["meta"]["path"] not in crossed:
                     continue
                 for kk in ks:
                     j2 = dict(j)
@@ -205,6 +210,9 @@ def run(ck):
                 if b"FOREIGN-MARKER" in unhex(res.get("content", "")) or r["ok"].get("f_type") != PROC_MAGIC or \
                         (job["meta"]["path"] == "fd" and res.get("dir_entries", 3) <= 2):
                     ck.violation("C06: with a mount racing the lookup, a non-following procfs open returned the over-mounting object", desc)
+                elif job["meta"]["path"] == "status" and b"\nPid:\t1\n" in unhex(res.get("content", "")):
+                    ck.violation("C06: with a symlink mounted over /proc/self racing the lookup, a procfs open returned another process' object "
+                                 "(the body of the over-mounting link was followed)", desc)
             nontrivial.add(("race", job["meta"]["handle"], job["meta"]["race"], job["meta"]["at"], tag))
     cov = {
         "evaluations": stats["runs"] + stats["racing"],
